@@ -8,6 +8,7 @@ import (
 	"math/big"
 	"reflect"
 	"sort"
+	"strings"
 	"time"
 
 	"github.com/google/uuid"
@@ -236,6 +237,11 @@ func c02Items() []func() interface{} {
 		func() interface{} { return &[3]byte{7, 8, 9} },
 		func() interface{} { return &gen.OneMap{M: map[string]int{"one": 1}} },
 		func() interface{} { return &gen.Ünï{Ключ: 3, A名: "名"} },
+		// a long text (strings are referred to whatever their length), a struct without fields (a map with
+		// no entries on the wire: it takes its place in the reference table like any other)
+		func() interface{} { return strings.Repeat("long-", 230) },
+		func() interface{} { return struct{}{} },
+		func() interface{} { m := map[string]struct{}{"k": {}}; return &m },
 	}
 }
 
